@@ -11,13 +11,13 @@ from mc import core, k_prot as kp
 PROPERTY = "C29"
 LEVEL = "exploration"
 META = {
-    "text": "Every built-in fuse std type (each selectable curve) and every generated fuse characteristic (x subsets of a 6-value set x non-increasing t selections from a multiset with a tie, Pchip and linear log-log interpolation) as well as OC relays DTOC/IDMT/IDTOC x 4 IEC curves x 2 (thorough 3) switches x graded time-setting alphabets (list with topological grading, manual DataFrame in natural and permuted row order) x pick-up alphabets (automatic factors, manual DataFrame natural / permuted) are built with the real classes and driven over a sorted current grid (support points, arithmetic and geometric midpoints, +-1..3 ulp around i_start / i_stop / every pick-up, multiples of the pick-up, decades 1 A .. 100 kA), ascending and descending, in both scenarios; on every call: reported time non-increasing along the grid (no trip = +inf), trip flag true exactly when the current is >= i_start (fuse) / > lowest pick-up (relay), activation value bitwise equal to the value written into the table of the chosen scenario.",
+    "text": "Every built-in fuse std type (each selectable curve) and every generated fuse characteristic (x subsets of a 6-value set x non-increasing t selections from a multiset with a tie, Pchip and linear log-log interpolation) as well as OC relays DTOC/IDMT/IDTOC x 4 IEC curves x 2 (thorough 3) switches x graded time-setting alphabets (list with topological grading, manual DataFrame in natural and permuted row order) x pick-up alphabets (automatic factors, manual DataFrame natural / permuted) are built with the real classes on switch tables with default, permuted ([2,0,1]) and user-chosen ([10,4,7]; fuses) index labels and driven over a sorted current grid (support points, arithmetic and geometric midpoints, +-1..3 ulp around i_start / i_stop / every pick-up, multiples of the pick-up, decades 1 A .. 100 kA), ascending and descending, in both scenarios; on every call: reported time non-increasing along the grid (no trip = +inf), trip flag true exactly when the current is >= i_start (fuse) / > lowest pick-up (relay), activation value bitwise equal to the value written into the table of the chosen scenario.",
     "note": "Continuous domain: decided on the stated finite device alphabets and current grids only. The current is injected through the narrow seam the devices read (net.res_switch_sc.ikss_ka for 'sc', net.res_switch.i_ka for 'pp'; all other cells hold decoys that flip the decision); the thorough tier additionally drives fuses through real calc_sc / runpp + calculate_protection_times. Preconditions of the statement are evaluated on the user's inputs: non-monotone characteristic data and inconsistently graded settings are counted, not judged for monotonicity. Devices whose constructor raises are counted only. Tolerance: 1e-9 relative on the time comparison.",
     "technique": "bounded exhaustive input enumeration (device alphabet x current grid, both call orders) on the real protection classes with monotonicity / threshold / table-value oracles",
     "design_ref": "DESIGN.md §3 E1, §4 C29",
 }
 
-SW = 1          # fuse cases: device on switch 1 of kp.fuse_net()
+POS = 1         # fuse cases: device on the switch row at position 1 of kp.fuse_net(swidx); its label is SWITCH_LABELS[swidx][1]
 
 # per switch id values of the manual DataFrames (all consistent: I_s < I_g < I_gg, t_gg < t_g)
 M_IGG = {0: 0.9, 1: 0.8, 2: 0.7}
@@ -39,12 +39,15 @@ def gen_cases(tier):
     net = pp.create_empty_network()
     for name in sorted(net.std_types["fuse"]):
         for cs in (0, 1):
-            cases.append({"dev": "fuse", "src": "std", "name": name, "curve_select": cs})
+            for swidx in ("default", "permuted", "gapped"):
+                cases.append({"dev": "fuse", "src": "std", "name": name, "curve_select": cs, "swidx": swidx})
     sizes = (2, 3, 4) if tier == "thorough" else (2, 3)
     for x, t in kp.fuse_generated(sizes):
         for kind in ("Pchip", "linear"):
-            cases.append({"dev": "fuse", "src": "gen", "x": x, "t": t, "kind": kind})
+            for swidx in (("default", "permuted", "gapped") if tier == "thorough" else ("default", "permuted")):
+                cases.append({"dev": "fuse", "src": "gen", "x": x, "t": t, "kind": kind, "swidx": swidx})
     sws = (0, 1, 2) if tier == "thorough" else (0, 1)
+    relay_start = len(cases)
     for sw in sws:
         # DTOC
         ts_list = [[0.07, 0.5, 0.3], [0.07, 0.07, 0.0], [0.5, 0.07, 0.3]]
@@ -67,9 +70,18 @@ def gen_cases(tier):
             for ts in [{"form": "list", "v": v} for v in ts_list] + [{"form": "df", "order": "natural"}]:
                 for pu in pus:
                     cases.append({"dev": "relay", "type": "IDTOC", "curve": curve, "sw": sw, "ts": ts, "pu": pu})
+    # every relay case with default and with permuted switch index labels ("sw" is the row position of the relay's switch)
+    relays = cases[relay_start:]
+    del cases[relay_start:]
+    for swidx in ("default", "permuted"):
+        for c in relays:
+            c2 = dict(c)
+            c2["swidx"] = swidx
+            cases.append(c2)
     if tier == "thorough":
         for name in sorted(net.std_types["fuse"]):
-            cases.append({"dev": "fuse_real", "name": name})
+            for swidx in ("default", "permuted"):
+                cases.append({"dev": "fuse_real", "name": name, "swidx": swidx})
     return cases
 
 
@@ -161,11 +173,12 @@ def run_fuse(case):
     from pandapower.protection.protection_devices.fuse import Fuse
     out = {"violations": [], "n": 0, "counts": {}, "sig": [], "outcome": "ok"}
     cnt = out["counts"]
-    net = kp.fuse_net()
+    net = kp.fuse_net(case["swidx"])
+    SW = kp.SWITCH_LABELS[case["swidx"]][POS]
     if case["src"] == "std":
         x, t, which = _std_curve(net, case["name"], case["curve_select"])
         dev = Fuse(net, switch_index=SW, fuse_type=case["name"], curve_select=case["curve_select"])
-        toks = ["dev=fuse", "src=std", "curve=" + which]
+        toks = ["dev=fuse", "src=std", "curve=" + which, "swidx=" + case["swidx"]]
         klass = "fuse/std"
     else:
         x, t = case["x"], case["t"]
@@ -174,7 +187,7 @@ def run_fuse(case):
             dev.create_characteristic(net, x, t)
         else:
             dev.create_characteristic(net, x, t, interpolator_kind="interp1d", kind="linear")
-        toks = ["dev=fuse", "src=gen", "kind=" + case["kind"]]
+        toks = ["dev=fuse", "src=gen", "kind=" + case["kind"], "swidx=" + case["swidx"]]
         klass = "fuse/gen"
     mono_data = _data_monotone(x, t)
     if not mono_data:
@@ -219,12 +232,13 @@ def run_fuse_real(case):
     from pandapower.protection.protection_devices.fuse import Fuse
     from pandapower.protection.run_protection import calculate_protection_times
     out = {"violations": [], "n": 0, "counts": {}, "sig": [], "outcome": "ok"}
-    base = kp.fuse_net()
+    base = kp.fuse_net(case["swidx"])
+    SW = kp.SWITCH_LABELS[case["swidx"]][POS]
     x, t, which = _std_curve(base, case["name"], 0)
     Fuse(base, switch_index=SW, fuse_type=case["name"])
     mono_data = _data_monotone(x, t)
     i_start = float(min(x))
-    toks = ["dev=fuse", "src=std", "route=real", "curve=" + which]
+    toks = ["dev=fuse", "src=std", "route=real", "curve=" + which, "swidx=" + case["swidx"]]
     for scenario in ("sc", "pp"):
         pts = []
         if scenario == "sc":
@@ -270,7 +284,7 @@ def run_fuse_real(case):
                 out["violations"].append(core.violation("activation_value_is_table_value", {"table": i, "reported": float(r["activation_parameter_value"]), "scenario": scenario},
                                                         tokens=toks + ["scenario=" + scenario], klass="fuse/real"))
                 break
-        out["sig"].append("fuse_real|%s|%s|distinct_currents=%d|tripped=%d" % (case["name"], scenario, len(set(cur)), sum(1 for v in tim if math.isfinite(v))))
+        out["sig"].append("fuse_real|%s|%s|%s|distinct_currents=%d|tripped=%d" % (case["name"], case["swidx"], scenario, len(set(cur)), sum(1 for v in tim if math.isfinite(v))))
     return out
 
 
@@ -304,7 +318,7 @@ def _manual_frames(case):
 def _ref_settings(case, net, dev):
     """the settings the USER specified for this switch (manual frames by switch_id, documented factor formulas for automatic
     pick-ups); values that only the device can derive (SC based I>>, topological time grading) are taken from the device"""
-    typ, sw = case["type"], case["sw"]
+    typ, sw = case["type"], kp.SWITCH_LABELS[case["swidx"]][case["sw"]]
     ref = {}
     pu, ts = case["pu"], case["ts"]
     if pu["form"] == "df":
@@ -349,8 +363,8 @@ def run_relay(case):
     from pandapower.protection.protection_devices.ocrelay import OCRelay
     out = {"violations": [], "n": 0, "counts": {}, "sig": [], "outcome": "ok"}
     cnt = out["counts"]
-    net = kp.relay_net()
-    typ, sw = case["type"], case["sw"]
+    net = kp.relay_net(case["swidx"])
+    typ, sw = case["type"], kp.SWITCH_LABELS[case["swidx"]][case["sw"]]
     tdf, pdf = _manual_frames(case)
     ts = tdf if tdf is not None else case["ts"]["v"]
     kw = dict(case["pu"].get("kw", {}))
@@ -363,7 +377,7 @@ def run_relay(case):
         return out
     ref = _ref_settings(case, net, dev)
     toks = ["dev=relay", "type=" + typ, "curve=" + case["curve"], "ts=" + case["ts"]["form"], "pu=" + case["pu"]["form"],
-            "ts_order=%s" % case["ts"].get("order"), "pu_order=%s" % case["pu"].get("order")]
+            "ts_order=%s" % case["ts"].get("order"), "pu_order=%s" % case["pu"].get("order"), "swidx=" + case["swidx"]]
     klass = "relay/" + typ
     cons = _consistent(typ, ref, case["curve"])
     if not cons:
@@ -409,8 +423,10 @@ def run_case(case):
 def explore(tier, seed):
     rep = core.Report(PROPERTY, LEVEL, tier, seed)
     core.warm(pf=True, sc=True)
-    kp.fuse_net()
-    kp.relay_net()
+    for k in kp.SWITCH_LABELS:
+        kp.fuse_net(k)
+    for k in ("default", "permuted"):
+        kp.relay_net(k)
     cases = gen_cases(tier)
     stride = int(os.environ.get("VERIF_CASE_STRIDE", "1") or 1)   # screening aid for seeded-mutation runs only: every n-th case
     if stride > 1:
@@ -419,8 +435,8 @@ def explore(tier, seed):
         rep.extra["case_stride"] = stride
     rep.rule = ("E1: device alphabet (31 built-in fuse std types x curve_select, generated fuses: x subsets of %s x non-increasing t "
                 "selections of %s x {Pchip, linear}; OC relays {DTOC, IDMT, IDTOC} x 4 curves x switches x time-setting alphabet x pick-up "
-                "alphabet) x the device's sorted current grid x {sc, pp} x {ascending, descending}; a device is distinct+non-trivial when it "
-                "was built and driven over its grid, keyed by the case hash and the observed trip pattern" % (kp.FUSE_X, kp.FUSE_T_MULTISET))
+                "alphabet) x switch index labels %s x the device's sorted current grid x {sc, pp} x {ascending, descending}; a device is distinct+non-trivial when it "
+                "was built and driven over its grid, keyed by the case hash and the observed trip pattern" % (kp.FUSE_X, kp.FUSE_T_MULTISET, kp.SWITCH_LABELS))
     rep.extra["devices"] = len(cases)
     rep.extra["fuse_devices"] = sum(1 for c in cases if c["dev"] == "fuse")
     rep.extra["relay_devices"] = sum(1 for c in cases if c["dev"] == "relay")
